@@ -359,7 +359,7 @@ def obligations(tier):
     I = "int"
     cases = [("T1", "file_array"), ("T5", "file_array"), ("T5", "dict"), ("T8", "file_array"), ("T7", "dict")]
     if thorough:
-        cases += [("TN3", "file_array"), ("T13", "file_array"), ("T7", "file_array"), ("T4", "file_array"), ("T4", "dict"), ("T12", "file_array"), ("T6", "file_array"), ("T16", "file_array"), ("T1", "dict")]
+        cases += [("TN3", "file_array"), ("T13", "file_array"), ("T7", "file_array"), ("T4", "dict"), ("T6", "file_array"), ("T16", "file_array"), ("T1", "dict")]
     chunk = 8
     for tid, st in cases:
         t = T[tid]
@@ -379,7 +379,7 @@ def obligations(tier):
                     canaries=("existence_is_completeness",) if (tid, st, lo) == ("T1", "file_array", 1) else (),
                 )
             )
-        if thorough and (tid, st) in (("T1", "file_array"), ("T5", "file_array"), ("T8", "file_array"), ("T7", "dict")):
+        if thorough and (tid, st) in (("T1", "file_array"), ("T7", "dict")):
             for lo in range(1, nmax + 1, 6):
                 hi = min(nmax, lo + 5)
                 obs.append(
